@@ -6,6 +6,7 @@ import GudhiVerif.Mfnd3
 import GudhiVerif.Order
 import GudhiVerif.Ser
 import GudhiVerif.Model.SimplexTree
+import GudhiVerif.Model.SerBytes
 /-! Driver for the simplex-tree properties (C01, C03, C04, C15): the state is the `Forest` model; mutating operations
     print their return flag, observation operations print canonical lines.  The same history file is executed by
     `harness/hST.cpp` on the real `Simplex_tree` under every option set. -/
@@ -72,8 +73,63 @@ def step (t : Forest) (ts : List String) : Forest × List String :=
   | ["order"] => (t, [s!"order {joinSp ((filtrationOrder t).map fun (w, f) => s!"{showWord w}:{f}")}"])
   | _ => (t, ["bad-op"])
 
+/-! ### several objects (C15): three slots, the operations above act on the selected one; copies, moves, swaps,
+    byte-level serialisation with length perturbation, text round trip -/
+
+structure Multi where
+  slots : Array Forest := #[Forest.nil, Forest.nil, Forest.nil]
+  cur : Nat := 0
+  wv : Nat := 4
+  wf : Nat := 8
+
+def Multi.get (m : Multi) (k : Nat) : Forest := m.slots.getD k Forest.nil
+def Multi.set (m : Multi) (k : Nat) (t : Forest) : Multi := { m with slots := m.slots.setIfInBounds k t }
+
+/-- IEEE encodings of integer values (`double` for `wf = 8`, `float` for `wf = 4`, nothing for `wf = 0`) -/
+def fenc (wf : Nat) (x : Int) : List Nat :=
+  if wf = 8 then BytesProto.toBytes 8 (Float.ofInt x).toBits.toNat
+  else if wf = 4 then BytesProto.toBytes 4 (Float32.ofInt x).toBits.toNat
+  else []
+def fdec (wf : Nat) (b : List Nat) : Int :=
+  if wf = 8 then (Float.ofBits (UInt64.ofNat (BytesProto.fromBytes b))).toInt64.toInt
+  else if wf = 4 then (Float32.ofBits (UInt32.ofNat (BytesProto.fromBytes b))).toInt64.toInt
+  else 0
+def codec (m : Multi) : SerBytes.Codec := { wv := m.wv, wf := m.wf, fenc := fenc m.wf, fdec := fdec m.wf }
+
+def hex2 (n : Nat) : String :=
+  let d := "0123456789abcdef".toList
+  String.mk [d.getD (n / 16) '?', d.getD (n % 16) '?']
+def showHex (b : List Nat) : String := String.join (b.map hex2)
+
+def stepM (m : Multi) (ts : List String) : Multi × List String :=
+  match ts with
+  | ["sel", k] => ({ m with cur := natD k }, ["sel"])
+  | ["widths", a, c] => ({ m with wv := natD a, wf := natD c }, ["widths"])
+  | ["copy", a, c] => (m.set (natD c) (m.get (natD a)), ["copy"])
+  | ["cassign", a, c] => (m.set (natD c) (m.get (natD a)), ["cassign"])
+  | ["mctor", a, c] => ((m.set (natD c) (m.get (natD a))).set (natD a) Forest.nil, ["mctor src-empty=1"])
+  | ["massign", a, c] => ((m.set (natD c) (m.get (natD a))).set (natD a) Forest.nil, ["massign src-empty=1"])
+  | ["swap", a, c] => ((m.set (natD c) (m.get (natD a))).set (natD a) (m.get (natD c)), ["swap"])
+  | ["destroy", a] => (m.set (natD a) Forest.nil, ["destroy"])
+  | ["eq", a, c] => (m, [s!"eq {b (decide (toList (m.get (natD a)) = toList (m.get (natD c))))}"])
+  | ["ser"] =>
+    let bytes := SerBytes.serB (codec m) (m.get m.cur)
+    (m, [s!"ser {bytes.length} {showHex bytes}"])
+  | ["deser", c, pos, k] =>
+    -- the serialisation of the selected object, cut to `len - k` bytes (pos = 0) or extended by `k` zero bytes (pos = 1)
+    let bytes := SerBytes.serB (codec m) (m.get m.cur)
+    let buf := if pos = "1" then bytes ++ List.replicate (natD k) 0 else bytes.take (bytes.length - natD k)
+    match SerBytes.deserialize (codec m) buf with
+    | some t => (m.set (natD c) t, ["deser ok"])
+    | none => (m.set (natD c) Forest.nil, ["deser invalid_argument"])
+  | ["text", c] => (m.set (natD c) (m.get m.cur), ["text"])
+  | ["thr", _, _] => (m, ["thr agree=1"])   -- independent objects on k threads behave as their sequential twins
+  | _ =>
+    let (t', out) := step (m.get m.cur) ts
+    (m.set m.cur t', out)
+
 def main (_args : List String) : IO Unit := do
   let lines ← readLines (← IO.getStdin) #[]
-  runCases lines Forest.nil step
+  runCases lines ({} : Multi) stepM
 
 end DriverST
